@@ -1258,7 +1258,7 @@ int main(int argc, char **argv)
   std::string mode = R.opt.sparam("mode", "seq");
   static Watchdog *dog = nullptr;  // never destroyed: its thread is detached
   if (mode == "conc")
-    dog = new Watchdog(static_cast<int>(R.opt.param("watchdog_s", R.opt.thorough ? 180 : 60)));
+    dog = new Watchdog(static_cast<int>(R.opt.param("watchdog_s", R.opt.thorough ? 600 : 300)));
   R.run_cases([&](uint64_t i) {
     uint64_t seed = R.case_seed(i);
     if (mode == "conc")
